@@ -134,6 +134,13 @@ pub fn check_outcome(w: &mut World, i: usize, o: &Outcome) {
         if !last_done {
             w.violation("C02", "multishot-ended-before-final-completion", format!("op #{id} ({kind:?}) returned None but the kernel has not posted the final completion"));
         }
+        // The stream may only end on a final completion that is not an interruption: after
+        // EINTR/ECANCELED (the caller did not drop it) the operation has to be issued again.
+        if let Some((last, ..)) = cqes.last() {
+            if last_done && (last.res == -libc::EINTR || last.res == -libc::ECANCELED) {
+                w.violation("C09", "interruption-ended-multishot-stream", format!("op #{id} ({kind:?}) returned None after the kernel ended it with errno {}: it was neither re-issued nor reported", -last.res));
+            }
+        }
         let yielded = w.slots[i].items;
         if yielded != cqes.len() {
             w.violation("C02", "multishot-item-count", format!("op #{id} ({kind:?}) ended after {yielded} items, the kernel posted {} results", cqes.len()));
@@ -349,6 +356,9 @@ pub fn run_history(cfg: &GenCfg, seed: u64, index: u64, rep: &mut Report) {
     }
     let mut w = World::new(&wcfg, seed ^ index);
     w.ident = (cfg.name.to_string(), seed, index);
+    if w.poisoned {
+        return finish_poisoned(cfg, seed, index, w, rep);
+    }
     w.ev(format!("world:sq={sq_size}:cq={:?}:wrap={near_wrap}", cq_size));
     if cfg.cancel_mix {
         let mut k = simk::k();
